@@ -105,3 +105,26 @@ func VerifHarness_C02_ThreeTerms() {
 		verifReach("nonempty")
 	}
 }
+
+// a database handed over as a plain command list (UpdateDatabase, LoadDatabaseWithMonitoring):
+// the cached lower-case fields are empty; asking twice must still give the same answer
+func VerifHarness_C02_RepeatUnfilled() {
+	cmds := []Command{
+		{Command: "zip -r site.zip public", Description: "Compress a directory into one archive", Keywords: []string{"zip", "recursive"}},
+		{Command: "tar czf a.tgz dir", Description: "Create an archive of a directory", Keywords: []string{"compress"}},
+		{Command: "du -sh dir", Description: "Show size of a directory"},
+	}
+	db := &Database{}
+	cdb := NewCachedDatabase(db)
+	cdb.EnableCache(false)
+	cdb.UpdateDatabase(cmds)
+	q := []string{"compress directory", "create archive", "show size"}[verifIntRange("query", 0, 2)]
+	o := SearchOptions{Limit: verifIntRange("limit", 1, 3), AllPlatforms: true, UseNLP: true}
+	a := cdb.SearchUniversal(q, o)
+	b := cdb.SearchUniversal(q, o)
+	c02SameResults(a, b, "repeated SearchUniversal, plain command list")
+	verifReach("compared")
+	if len(a) > 0 {
+		verifReach("nonempty")
+	}
+}
